@@ -550,6 +550,61 @@ def nested_jobs(ctx, rng):
     return jobs
 
 
+def sizes_jobs(ctx, rng):
+    """one preset STRING through the front end (array_contract_path with its cache, array_contract_tree, find_path,
+    array_contract_expression) with explicit size_dicts over ONE index structure: equal mappings in different key
+    order, and permutations of the value sequence over the keys (the caches in front of the presets must key on the
+    mapping, not on the value sequence)"""
+    jobs = []
+
+    def pool_for(n, ring):
+        m = n if ring else n + 1
+        labels = [SYMS[i] for i in range(m)]
+        inputs = [[labels[i], labels[(i + 1) % m]] for i in range(n)]
+        if ring:
+            output = []
+        else:
+            output = [labels[0], labels[n]]
+        vals = rng.sample([2, 3, 5, 7, 11, 13, 40, 50], m)
+        base = list(zip(labels, vals))
+        qs = [base]
+        order2 = base[:]
+        rng.shuffle(order2)
+        qs.append(order2)                                             # equal mapping, other key order
+        # the red-team shape: the SAME value sequence, attached to other keys (key order permuted accordingly)
+        perm = labels[:]
+        while perm == labels:
+            rng.shuffle(perm)
+        qs.append(list(zip(perm, vals)))
+        perm2 = labels[1:] + labels[:1]
+        qs.append(list(zip(perm2, vals)))
+        vals3 = vals[:]
+        rng.shuffle(vals3)
+        qs.append(list(zip(labels, vals3)))                           # same key order, values permuted
+        return [{"inputs": inputs, "output": output, "size_dict": dict(q)} for q in qs]
+
+    demo = [{"inputs": [["a", "b"], ["b", "c"], ["c", "d"]], "output": ["a", "d"], "size_dict": dict(sd)} for sd in (
+        [("a", 2), ("b", 50), ("c", 3), ("d", 40)], [("d", 40), ("c", 3), ("b", 50), ("a", 2)],
+        [("b", 2), ("a", 50), ("d", 3), ("c", 40)], [("b", 2), ("c", 50), ("d", 3), ("a", 40)],
+        [("a", 50), ("b", 2), ("c", 40), ("d", 3)])]
+    presets = ["optimal", "greedy", "auto", "auto-hq", "dp", "eager", "optimal-outer"]
+    for pi, preset in enumerate(presets):
+        pools = [demo] + [pool_for(rng.choice((3, 4)), rng.random() < 0.4) for _ in range(ctx.n(2, 8))]
+        for pool in pools:
+            for api in ("cpath", "tree", "findpath", "expr"):
+                hist = [0, 2, 1, 3, 4, 0, 2]
+                if rng.random() < 0.5:
+                    hist = [2, 0, 3, 1, 0, 4, 2]
+                jobs.append({"kind": "sizes", "target": "preset:" + preset, "opts": {}, "queries": pool,
+                             "programs": [[[q, api] for q in hist]], "tag": "sizes:%s:%s" % (preset, api)})
+            # two threads, mixed interfaces
+            progs = [[[q, rng.choice(("cpath", "cpath", "tree", "expr"))] for q in (0, 2, 1, 3)],
+                     [[q, rng.choice(("cpath", "cpath", "tree", "expr"))] for q in (2, 0, 3, 4)]]
+            jobs.append({"kind": "sizes", "target": "preset:" + preset, "opts": {}, "queries": pool,
+                         "programs": progs, "tag": "sizes-2threads:%s" % preset})
+    return jobs
+
+
 def is_uncached_auto(job):
     return job["target"] in ("auto", "autohq") and job.get("opts", {}).get("cache", True) is False
 
@@ -577,6 +632,7 @@ def run(ctx):
     sj = seq_jobs(ctx, rng)
     tj = stress_jobs(ctx, rng)
     nj = nested_jobs(ctx, rng)
+    zj = sizes_jobs(ctx, rng)
     # the repro of the known finding, probed on every run (kept in corpus/C16)
     corpus = os.path.join(os.path.dirname(os.path.dirname(HERE)), "corpus", "C16")
     probes = []
@@ -596,13 +652,16 @@ def run(ctx):
     sb = chunks(sj[:len(sj) - nsolo], 4) + [[j] for j in sj[len(sj) - nsolo:]]
     tb = chunks(tj, 2)
     nb = chunks(nj, 6)
-    batches = fb + sb + tb + nb
-    ctx.log("jobs: %d forced, %d sequential, %d stress in %d worker processes" % (len(fj), len(sj), len(tj), len(batches)))
+    zb = [[j] for j in zj]        # the front end's caches are process-wide: one process per history
+    batches = fb + sb + tb + nb + zb
+    ctx.log("jobs: %d forced, %d sequential, %d stress, %d nested, %d size-dict in %d worker processes" % (
+        len(fj), len(sj), len(tj), len(nj), len(zj), len(batches)))
     res = run_batches(ctx, batches, timeout=ctx.n(400, 1500))
     flat = [r for b in res for r in b]
     fres, sres = flat[:len(fj)], flat[len(fj):len(fj) + len(sj)]
     tres = flat[len(fj) + len(sj):len(fj) + len(sj) + len(tj)]
-    nres = flat[len(fj) + len(sj) + len(tj):]
+    nres = flat[len(fj) + len(sj) + len(tj):len(fj) + len(sj) + len(tj) + len(nj)]
+    zres = flat[len(fj) + len(sj) + len(tj) + len(nj):]
     ctx.log("workers done in %.1fs" % (time.time() - t0))
 
     def strip(job):
@@ -616,7 +675,7 @@ def run(ctx):
             return
         for b in r.get("bad", []):
             if "thread" in b and "programs" in job:
-                prog = job["programs"][b["thread"]]
+                prog = [x[0] if isinstance(x, list) else x for x in job["programs"][b["thread"]]]
                 upto = b.get("step")
                 earlier = set(prog if upto is None else prog[:upto])
                 if job.get("serial"):      # a recycled thread ident inherits the dead thread's optimizer
@@ -656,6 +715,11 @@ def run(ctx):
                          {"job": strip(job), "result": r}, found_input=False)
         ctx.case(("nested", job["target"], json.dumps(job["opts"], sort_keys=True), job["api"], job["inner_api"],
                   job["bound_preset"]), nontrivial=True, sample=None)
+    for job, r in zip(zj, zres):
+        report(job, r, "queries with explicit size_dicts over one index structure through a preset string")
+        ctx.count(job["tag"].rsplit(":", 1)[0] if job["tag"].startswith("sizes:") else "sizes-2threads")
+        ctx.case(("sizes", job["target"], json.dumps(job["queries"]), json.dumps(job["programs"])), nontrivial=True,
+                 sample=None)
     for job, r in zip(tj, tres):
         report(job, r, "stress run")
         ctx.count(job["tag"])
